@@ -109,6 +109,13 @@ def gen_cases(tier, seed):
                 spec, pre, args = mixed_tree(r, 0)
                 yield {"threadfail": k, "spec": spec, "pre": pre, "args": ["--driver", driver, "-w", str(w)] + args[2:], "driver": driver, "variant": 0, "fs": "ext4",      # (args starts with -w N)
                        "workers": w}
+    # a source whose length is not known beforehand (the kernel's own files: st_size 0, content read until end of file): the k-th
+    # read of it fails -- or a write of the copy does
+    for path in [p_ for p_ in ("/proc/kallsyms", "/proc/crypto") if os.path.exists(p_)]:
+        for driver in ("parfile", "parblock"):
+            for sysc, errno_ in (("read", 5), ("read", 13), ("write", 28), ("write", 5)):
+                for k in ((1, 2, 3, 7) if tier == "quick" else (1, 2, 3, 4, 5, 7, 12, 30)):
+                    yield {"unsizedfault": {"path": path, "sys": sysc, "errno": errno_, "nth": k}, "driver": driver, "fs": "ext4", "args": ["--driver", driver, "-w", "2", path, "copy"]}
     yield from natural_cases(r, tier)
 
 
@@ -290,7 +297,7 @@ def run_natural(case):
 
 
 def expand_case(case):
-    if case.get("natural") or case.get("threadfail"):
+    if case.get("natural") or case.get("threadfail") or case.get("unsizedfault"):
         return [case]
     with core.Sandbox(case["fs"], "c04") as sb:
         root = sb.root
@@ -420,9 +427,44 @@ def run_threadfail(case):
     return res
 
 
+def run_unsizedfault(case):
+    res = {"evals": [], "viol": [], "inconc": [], "counters": {}}
+    uf = case["unsizedfault"]
+    with core.Sandbox(case["fs"], "c04") as sb:
+        root = sb.root
+        where = {"path": uf["path"]} if uf["sys"] == "read" else {"under": root + "/"}
+        run = core.run_xcp(sb, case["args"], {"log_mode": "none", "rules": [dict({"id": "u", "sys": uf["sys"], "action": "fault", "errno": uf["errno"], "nth": uf["nth"]}, **where)]})
+        if run.verdict != "exited":
+            res["inconc"].append("run-" + run.verdict)
+            return res
+        if not run.rule("u")["applied"]:
+            res["counters"]["site-missed"] = 1
+            return res
+        res["counters"]["fault-applied"] = 1
+        res["counters"]["sys:" + uf["sys"]] = 1
+        res["counters"]["unsized-source-faults"] = 1
+        if run.exit0:
+            res["counters"]["exit0-after-fault"] = 1
+            try:
+                want = open(uf["path"], "rb").read()
+                got = open(os.path.join(root, "copy"), "rb").read()
+            except OSError as e:
+                want, got = b"", None
+            # (these files are generated on every read: the length and the first and last kilobyte are compared)
+            if got is None or len(got) != len(want) or got[:1024] != want[:1024] or got[-1024:] != want[-1024:]:
+                res["viol"].append({"sig": "%s:%s:unsized-source:incomplete" % (case["driver"], uf["sys"]), "what": "exit 0 although %s #%d on the copy of %s failed with errno %d: the copy has %s bytes, the source %d; %s"
+                                    % (uf["sys"], uf["nth"], uf["path"], uf["errno"], "no" if got is None else len(got), len(want), " ".join(case["args"]))})
+        else:
+            res["counters"]["nonzero-after-fault"] = 1
+        res["evals"].append({"key": [case["driver"], uf["sys"], "unsized-source", uf["errno"], uf["nth"]], "sample": {"args": case["args"], "fault": uf, "exit": run.status}})
+    return res
+
+
 def run_case(case):
     if case.get("natural"):
         return run_natural(case)
+    if case.get("unsizedfault"):
+        return run_unsizedfault(case)
     if case.get("threadfail"):
         return run_threadfail(case)
     res = {"evals": [], "viol": [], "inconc": [], "counters": {}}
